@@ -144,7 +144,7 @@ class ProbeModule:
                     includes=[d, os.path.join(ctx.repo, "w2c2")], solver=p.solver, safety=safety, ub_checks=ub_checks,
                     flags=list(extra_flags) + p.flags, funcs=["generated:%s_%s" % (self.modname, p.name)] + p.funcs,
                     min_canaries=2 if p.trap else 1, replay=replay, bounded=p.bounded, timeout=p.timeout, defines=defines,
-                    info=dict(layer="G", wasm=p.wasm_desc, module_hex=wasm_bytes.hex() if len(wasm_bytes) < 4000 else "(%d bytes)" % len(wasm_bytes),
+                    info=dict(layer="G", generated_c=os.path.join(d, self.modname + ".c"), wasm=p.wasm_desc, module_hex=wasm_bytes.hex() if len(wasm_bytes) < 4000 else "(%d bytes)" % len(wasm_bytes),
                               w2c2_opts=list(opts)))
             jobs.append(j)
         return jobs
